@@ -23,6 +23,7 @@ type c05cShrinkCase struct {
 	Limit1  int `json:"limit_before"`
 	Limit2  int `json:"limit_after"`
 	After   int `json:"shrinks_after_sendmessage_calls"`
+	Next    int `json:"next_message,omitempty"` // size of a second message sent on the same session afterwards (0 = none)
 }
 
 type c05cShrinkIO struct {
@@ -48,32 +49,68 @@ func (f *c05cShrinkIO) SendMessage(buf []byte, msg *protocol.UDPMessage) error {
 	return nil
 }
 
-func c05cShrinkRun(c *c05cShrinkCase) (clause string) {
-	payload := make([]byte, c.Payload)
-	for i := range payload {
-		payload[i] = byte(i*7 + 3)
+func c05cPayload(n, k int) []byte {
+	b := make([]byte, n)
+	for i := range b {
+		b[i] = byte(i*(7+4*k) + 3 + k)
 	}
-	addr := string(make([]byte, c.AddrLen))
+	return b
+}
+
+// c05cShrinkRun: message A (Payload bytes) and, when Next > 0, a second message B (Next bytes)
+// on the same session, sent while the limit follows the case's schedule. Packet IDs are drawn
+// from math/rand by the code under test: two messages share an ID with probability 1/65535 on a
+// correct tree, so a failing case is re-run and reported only if it fails three times in a row.
+func c05cShrinkRun(c *c05cShrinkCase) (clause string) {
+	for try := 0; try < 3; try++ {
+		if clause = c05cShrinkRunOnce(c); clause == "" || c.Next == 0 {
+			return clause
+		}
+	}
+	return clause
+}
+
+func c05cShrinkRunOnce(c *c05cShrinkCase) (clause string) {
+	addr := "a" + string(make([]byte, c.AddrLen))[1:]
 	f := &c05cShrinkIO{c: c}
-	msg := &protocol.UDPMessage{SessionID: 9, FragCount: 1, Addr: "a" + addr[1:], Data: append([]byte(nil), payload...)}
 	u := &udpConn{ID: 9, SendBuf: make([]byte, protocol.MaxUDPSize), SendFunc: f.SendMessage}
-	v, st := evidence.Catch(func() { _ = u.Send(append([]byte(nil), payload...), msg.Addr) })
-	if v != nil {
-		return fmt.Sprintf("panic: %v at %s", v, evidence.PanicSite(st))
+	payloads := [][]byte{c05cPayload(c.Payload, 0)}
+	if c.Next > 0 {
+		payloads = append(payloads, c05cPayload(c.Next, 1))
+	}
+	sendOK := make([]bool, len(payloads))
+	for k, pl := range payloads {
+		var err error
+		v, st := evidence.Catch(func() { err = u.Send(append([]byte(nil), pl...), addr) })
+		if v != nil {
+			return fmt.Sprintf("panic: %v at %s", v, evidence.PanicSite(st))
+		}
+		sendOK[k] = err == nil
 	}
 	// far side: whatever reached the wire, in order, through the real parser and reassembler
 	d := &frag.Defragger{}
+	delivered := make([]int, len(payloads))
 	for i, w := range f.wire {
 		m, err := protocol.ParseUDPMessage(append([]byte(nil), w...))
 		if err != nil {
 			return fmt.Sprintf("datagram %d on the wire does not parse: %v", i, err)
 		}
 		if out := d.Feed(m); out != nil {
-			if string(out.Data) != string(payload) || out.Addr != msg.Addr || out.SessionID != 9 {
-				return fmt.Sprintf("the far side reassembled a message of %d bytes that was never sent (original %d bytes) after datagram %d of %d", len(out.Data), len(payload), i+1, len(f.wire))
+			which := -1
+			for k, pl := range payloads {
+				if string(out.Data) == string(pl) {
+					which = k
+				}
 			}
+			if which < 0 || out.Addr != addr || out.SessionID != 9 {
+				return fmt.Sprintf("the far side reassembled a message of %d bytes that was never sent (messages sent: %d and %d bytes) after datagram %d of %d", len(out.Data), c.Payload, c.Next, i+1, len(f.wire))
+			}
+			delivered[which]++
 		}
 	}
+	// (a message that is not delivered at all — discarded by the sender, or its Send aborted — is
+	// within the property: "byte-identical or not at all")
+	_ = sendOK
 	return ""
 }
 
@@ -82,29 +119,31 @@ func c05cShrinkEnumerate(sh *evidence.Shard) {
 	p := sh.Part("limit-changes-mid-message-client", "enum")
 	payloads := []int{1, 700, 1175, 1176, 1200, 2000, 2350, 3000, 4000}
 	limits := []int{40, 300, 700, 1100, 1199, 1200, 1452}
-	p.Alphabet = map[string]any{"payload": payloads, "addr_len": []int{10, 64}, "limit_before/after": limits, "change_after_calls": "1..6"}
+	p.Alphabet = map[string]any{"payload": payloads, "addr_len": []int{10, 64}, "limit_before/after": limits, "change_after_calls": "1..6", "second_message_on_the_same_session": []int{0, 700, 2000, 2350, 3000}}
 	var item int64
 	for _, pl := range payloads {
 		for _, al := range []int{10, 64} {
 			for _, l1 := range limits {
 				for _, l2 := range limits {
 					for after := 1; after <= 6; after++ {
-						item++
-						if !env.Mine(item) {
-							continue
-						}
-						c := c05cShrinkCase{Payload: pl, AddrLen: al, Limit1: l1, Limit2: l2, After: after}
-						p.Evaluations++
-						clause := c05cShrinkRun(&c)
-						p.Class(pl > l1, l2 < l1, after, clause == "")
-						if p.Evaluations%173 == 5 {
-							p.Sample(c)
-						}
-						if clause != "" {
-							cc := c
-							sh.Violate(p.Name, fmt.Sprintf("%s/%.60s/payload=%d,addr=%d,limit=%d->%d after %d calls", p.Name, clause, pl, al, l1, l2, after), clause, &cc)
-							if sh.NViolations() >= 4 {
-								return
+						for _, next := range []int{0, 700, 2000, 2350, 3000} {
+							item++
+							if !env.Mine(item) {
+								continue
+							}
+							c := c05cShrinkCase{Payload: pl, AddrLen: al, Limit1: l1, Limit2: l2, After: after, Next: next}
+							p.Evaluations++
+							clause := c05cShrinkRun(&c)
+							p.Class(pl > l1, l2 < l1, after, clause == "")
+							if p.Evaluations%173 == 5 {
+								p.Sample(c)
+							}
+							if clause != "" {
+								cc := c
+								sh.Violate(p.Name, fmt.Sprintf("%s/%.60s/payload=%d+%d,addr=%d,limit=%d->%d after %d calls", p.Name, clause, pl, next, al, l1, l2, after), clause, &cc)
+								if sh.NViolations() >= 4 {
+									return
+								}
 							}
 						}
 					}
